@@ -530,6 +530,21 @@ func assignStmtOf(body *ast.BlockStmt, name string, occ int) ast.Stmt {
 			}
 			return true
 		}
+		if name == "break" {
+			// anchor on the occ-th break statement of the function (the clause is checked just before it executes)
+			switch x := m.(type) {
+			case *ast.FuncLit:
+				return false
+			case *ast.BranchStmt:
+				if x.Tok == token.BREAK {
+					if n == occ {
+						found = x
+					}
+					n++
+				}
+			}
+			return true
+		}
 		if strings.HasPrefix(name, "call:") {
 			// anchor on the occ-th statement that is (or assigns the result of) a call of the named function
 			var call *ast.CallExpr
@@ -873,6 +888,9 @@ func (prog *Program) genSynth(p0 *packages.Package) (string, error) {
 			}
 			at := stmt.End()
 			if _, isRet := stmt.(*ast.ReturnStmt); isRet {
+				at = stmt.Pos()
+			}
+			if _, isBr := stmt.(*ast.BranchStmt); isBr {
 				at = stmt.Pos()
 			}
 			if err := emit(ac.Cl, false, "", "bool", at); err != nil {
